@@ -34,8 +34,10 @@ CHAIN = {
 }
 
 
-def workload():
+def workload(name='main'):
     """List of (label, version, item builder(ctx)). ctx maps labels to identifiers."""
+    if name == 'attributes':
+        return workload_attributes()
     c = W.common_attrs
     wl = [
         ('create', (1, 2), lambda x: W.p_create(W.sym_attrs(masks=MASKS, names=['k', 'k-alias'],
@@ -77,17 +79,96 @@ def workload():
     return wl
 
 
-def run_workload(w, on_before=None, on_ack=None):
+APPI = lambda ns, d: {"application_namespace": ns, "application_data": d}      # noqa: E731
+BEO = E.BatchErrorContinuationOption
+
+
+def workload_attributes():
+    """Second workload: every attribute operation form on every multi-valued attribute of one rich
+    object, multi-item batches that commit more than once, failing items between succeeding ones,
+    a wrapped key, a derived key with names, a pair whose private half is destroyed."""
+    c = W.common_attrs
+    rich = lambda: c(names=['n0', 'n1', 'n2'], groups=['g0', 'g1'], appinfo=[('ns', 'd0'), ('ns', 'd1')],   # noqa
+                     sensitive=False)
+    return [
+        ('create', (1, 4), lambda x: W.p_create(W.sym_attrs(masks=MASKS) + rich())),
+        ('register_rich_secret', (1, 4), lambda x: W.p_register(W.pie_secret(), rich())),
+        ('mod_name_1', (1, 4), lambda x: W.p_modify_attribute_1x(x['create'], AT.NAME, 'm1', 1)),
+        ('mod_name_noidx', (1, 4), lambda x: W.p_modify_attribute_1x(x['create'], AT.NAME, 'm0')),
+        ('mod_group_1', (1, 4), lambda x: W.p_modify_attribute_1x(x['create'], AT.OBJECT_GROUP, 'h1', 1)),
+        ('mod_app_0', (1, 4), lambda x: W.p_modify_attribute_1x(
+            x['create'], AT.APPLICATION_SPECIFIC_INFORMATION, APPI('ns', 'e0'), 0)),
+        ('mod_sensitive', (1, 4), lambda x: W.p_modify_attribute_1x(x['create'], AT.SENSITIVE, True)),
+        ('failing_mod_oob', (1, 4), lambda x: W.p_modify_attribute_1x(x['create'], AT.NAME, 'zz', 9)),
+        ('del_name_2', (1, 4), lambda x: W.p_delete_attribute_1x(x['create'], 'Name', 2)),
+        ('del_group_0', (1, 4), lambda x: W.p_delete_attribute_1x(x['create'], 'Object Group', 0)),
+        ('del_app_1', (1, 4), lambda x: W.p_delete_attribute_1x(
+            x['create'], 'Application Specific Information', 1)),
+        ('batch_two_mods', (1, 4), lambda x: [
+            W.p_modify_attribute_1x(x['register_rich_secret'], AT.NAME, 'b0', 0),
+            W.p_modify_attribute_1x(x['register_rich_secret'], AT.OBJECT_GROUP, 'bg', 0)]),
+        ('batch_mod_fail_mod', (1, 4), lambda x: [
+            W.p_modify_attribute_1x(x['register_rich_secret'], AT.NAME, 'c1', 1),
+            W.p_get('999'),
+            W.p_delete_attribute_1x(x['register_rich_secret'], 'Name', 2)], {'error_option': BEO.CONTINUE}),
+        ('set20_sensitive', (2, 0), lambda x: W.p_set_attribute(x['register_rich_secret'], AT.SENSITIVE, True)),
+        ('mod20_name', (2, 0), lambda x: W.p_modify_attribute_20(
+            x['register_rich_secret'], AT.NAME, 'q0', 'b0')),
+        ('mod20_app', (2, 0), lambda x: W.p_modify_attribute_20(
+            x['register_rich_secret'], AT.APPLICATION_SPECIFIC_INFORMATION, APPI('ns', 'q1'),
+            APPI('ns', 'd1'))),
+        ('del20_name_cur', (2, 0), lambda x: W.p_delete_attribute_20(
+            x['register_rich_secret'], AT.NAME, 'c1')),
+        ('del20_group_ref', (2, 0), lambda x: W.p_delete_attribute_20(
+            x['register_rich_secret'], AT.OBJECT_GROUP)),
+        ('del20_app_cur', (2, 0), lambda x: W.p_delete_attribute_20(
+            x['register_rich_secret'], AT.APPLICATION_SPECIFIC_INFORMATION, APPI('ns', 'd0'))),
+        ('activate', (1, 4), lambda x: W.p_activate(x['create'])),
+        ('derive_named', (1, 4), lambda x: W.p_derive_key(
+            [x['create']], attrs=W.sym_attrs(masks=MASKS, names=['dk0', 'dk1'], groups=['g0']))),
+        ('register_wrapped', (1, 4), lambda x: W.p_register(_wrapped_key(x['create']))),
+        ('create_key_pair', (1, 4), lambda x: W.p_create_key_pair(**W.rsa_pair_attrs())),
+        ('destroy_private_half', (1, 4), lambda x: W.p_destroy(x['create_key_pair'])),
+        ('batch_create_destroy', (1, 4), lambda x: [
+            W.p_create(W.sym_attrs(masks=MASKS, names=['tmp'])), W.p_destroy()]),
+        ('revoke_dated', (1, 4), lambda x: W.p_revoke(
+            x['create'], E.RevocationReasonCode.KEY_COMPROMISE, 'leaked', W.T0 - 5)),
+        ('destroy_rich', (1, 4), lambda x: W.p_destroy(x['create'])),
+        ('destroy_secret', (2, 0), lambda x: W.p_destroy(x['register_rich_secret'])),
+    ]
+
+
+def _wrapped_key(kek_uid):
+    from kmip.pie import objects as pobjects
+    return pobjects.SymmetricKey(
+        E.CryptographicAlgorithm.AES, 128, b'\x99' * 24,
+        key_wrapping_data={'wrapping_method': E.WrappingMethod.ENCRYPT,
+                           'encryption_key_information': {
+                               'unique_identifier': kek_uid,
+                               'cryptographic_parameters': {'block_cipher_mode': E.BlockCipherMode.NIST_KEY_WRAP}},
+                           'encoding_option': E.EncodingOption.NO_ENCODING})
+
+
+WORKLOADS = ['main', 'attributes']
+
+
+def run_workload(w, on_before=None, on_ack=None, name='main', on_item=None):
     """Runs the workload on world w; returns list of (label, ok)."""
     ctx = {}
     out = []
     W.ENTROPY.constant = True
-    for i, (label, version, build) in enumerate(workload()):
+    for i, entry in enumerate(workload(name)):
+        label, version, build = entry[:3]
+        hdr = entry[3] if len(entry) > 3 else {}
         W.CLOCK.now = W.T0 + i
         if on_before:
             on_before(i, label)
-        r = w.do(version, build(ctx))
-        ok = all(it.ok() for it in r.items)
+        items = build(ctx)
+        if on_item is not None and isinstance(items, list) and len(items) > 1:
+            on_item(i, label, version, items, hdr)      # reference runs: item by item
+            items = build(ctx)
+        r = w.do(version, items, **hdr)
+        ok = all(it.ok() for it in r.items) or label.startswith(('failing', 'batch_mod_fail'))
         uid = r.uid() if r.items and r.items[0].payload else None
         if uid is None and r.items and r.items[0].payload:
             uid = r.pfind(W.TAG.PRIVATE_KEY_UNIQUE_IDENTIFIER)
@@ -98,7 +179,16 @@ def run_workload(w, on_before=None, on_ack=None):
     return out
 
 
-RSA_GENERATED = ('2', '3')      # identifiers of the CreateKeyPair halves in this fixed workload
+# identifiers of the CreateKeyPair halves in each workload
+RSA_IDS = {'main': ('2', '3'), 'attributes': ('5', '6')}
+RSA_GENERATED = RSA_IDS['main']
+
+
+class States(list):
+    """S_0..S_n plus, per operation index, the intermediate states a multi-item batch passes
+    through (each item is an operation of its own: all-or-nothing holds per item)."""
+    extra = {}
+    name = 'main'
 
 
 def view(dump):
@@ -118,12 +208,30 @@ def view(dump):
     return json.dumps(out, sort_keys=True, default=str)
 
 
-def reference_states():
+def reference_states(name='main'):
     """S_0 .. S_n of an uncrashed run (+ per-op labels/results)."""
+    global RSA_GENERATED
+    RSA_GENERATED = RSA_IDS[name]
     w = W.World()
     try:
-        states = [view(w.dump())]
-        res = run_workload(w, on_ack=lambda i, l: states.append(view(w.dump())))
+        states = States([view(w.dump())])
+        states.extra = {}
+        states.name = name
+
+        def on_item(i, label, version, items, hdr):
+            # the states after each proper prefix of a multi-item batch, by sending the items one
+            # request each to a clone
+            c = w.clone()
+            try:
+                mids = []
+                for it in items[:-1]:
+                    c.do(version, it)
+                    mids.append(view(c.dump()))
+                states.extra[i] = mids
+            finally:
+                c.close()
+        res = run_workload(w, on_ack=lambda i, l: states.append(view(w.dump())), name=name,
+                           on_item=on_item)
         return states, res
     finally:
         w.close()
@@ -146,6 +254,8 @@ def partial_objects(dump):
 
 def check_survivor(dbfile, acked, states, labels):
     """Returns list of (key, what)."""
+    global RSA_GENERATED
+    RSA_GENERATED = RSA_IDS[getattr(states, 'name', 'main')]
     bad = []
     tmp = tempfile.mkdtemp(prefix='verif-c09s-', dir=W.SCRATCH_BASE)
     try:
@@ -176,7 +286,9 @@ def check_survivor(dbfile, acked, states, labels):
             for p in partial_objects(dump):
                 bad.append(("partial-object", p))
             v = view(dump)
-            if v not in (states[acked], states[min(acked + 1, len(states) - 1)]):
+            allowed = [states[acked], states[min(acked + 1, len(states) - 1)]] + list(
+                getattr(states, 'extra', {}).get(acked, []))
+            if v not in allowed:
                 which = "neither S_%d nor S_%d" % (acked, acked + 1)
                 bad.append(("state-mismatch|op=%s" % (labels[acked] if acked < len(labels) else 'end'),
                             "with %d operations acknowledged (in flight: %s) the survivor's store is %s: %s"
@@ -222,7 +334,7 @@ def statement_level(part, states, labels):
             rec.acked = i + 1
             rec.explicit('after-ack')
 
-        run_workload(w, before, ack)
+        run_workload(w, before, ack, name=getattr(states, 'name', 'main'))
         rec.current_op = None
         pts = rec.points
     finally:
@@ -264,7 +376,7 @@ w.dir = %(dir)r; w.db = %(db)r; w.policies = W.default_policies(); w.sessions = 
 w.open_engine()
 def ack(i, label):
     sys.stdout.write("ACK %%d\n" %% (i + 1)); sys.stdout.flush()
-c.run_workload(w, None, ack)
+c.run_workload(w, None, ack, name=%(name)r)
 sys.stdout.write("DONE\n"); sys.stdout.flush()
 '''
 
@@ -278,7 +390,7 @@ def _syscall_worker(task):
             db = os.path.join(tmp, 'kmip.db')
             shutil.copyfile(W.template_db(), db)
             code = WORKLOAD_MAIN % {'verif': os.path.dirname(os.path.dirname(os.path.abspath(__file__))),
-                                    'dir': tmp, 'db': db}
+                                    'dir': tmp, 'db': db, 'name': getattr(states, 'name', 'main')}
             out, rc = crash.run_with_kill(['/venv/bin/python', '-c', code], env, syscall, n)
             acked = len([l for l in out.splitlines() if l.startswith('ACK')])
             done = 'DONE' in out
@@ -310,62 +422,80 @@ def _child_env():
     return env
 
 
-def run(tier, seed):
-    rep = Reporter('C09', 'fault_enumeration', tier, seed)
-    states, res = reference_states()
+def _one_workload(rep, tier, name, kinds, tot):
+    states, res = reference_states(name)
     labels = [r[0] for r in res]
     failed = [r for r in res if not r[1]]
     if failed:
-        rep.harness_error("workload operations fail on the uncrashed run: %s" % failed[:3])
-    distinct_states = len(set(states))
+        rep.harness_error("workload '%s': operations fail on the uncrashed run: %s" % (name, failed[:3]))
+    tot['distinct_states'] += len(set(states))
+    tot['operations'] += len(labels)
     tmp, pts = statement_level(None, states, labels)
-    kinds = set()
     try:
         n = 16
         for part in pmap(_stmt_worker, [(pts[i::n], states, labels) for i in range(n)]):
             kinds.update(tuple(k) for k in part.pop('kinds', []))
+            _tag(part, name)
             rep.merge(part)
     finally:
         shutil.rmtree(tmp, ignore_errors=True)
-    stmt_points = len(pts)
-    sys_points = 0
-    counts = {}
+    tot['stmt_points'] += len(pts)
     if tier == 'thorough':
         if not crash.strace_available():
             rep.harness_error("strace is not available: syscall-level crash points cannot run")
-        else:
-            env = _child_env()
-            tmpd = tempfile.mkdtemp(prefix='verif-c09c-', dir=W.SCRATCH_BASE)
-            try:
-                db = os.path.join(tmpd, 'kmip.db')
-                shutil.copyfile(W.template_db(), db)
-                code = WORKLOAD_MAIN % {'verif': os.path.dirname(os.path.dirname(os.path.abspath(__file__))),
-                                        'dir': tmpd, 'db': db}
-                counts, out, rc = crash.count_syscalls(['/venv/bin/python', '-c', code], env)
-                if 'DONE' not in out:
-                    rep.harness_error("un-faulted workload run under strace did not finish: rc=%s" % rc)
-            finally:
-                shutil.rmtree(tmpd, ignore_errors=True)
-            tasks = []
-            for sc, cnt in sorted(counts.items()):
-                ns = list(range(1, cnt + 1))
-                sys_points += len(ns)
-                k = max(1, min(16, len(ns) // 4 or 1))
-                for i in range(k):
-                    if ns[i::k]:
-                        tasks.append((sc, ns[i::k], states, labels, env))
-            for part in pmap(_syscall_worker, tasks):
-                kinds.update(tuple(k) for k in part.pop('kinds', []))
-                rep.merge(part)
+            return
+        env = _child_env()
+        tmpd = tempfile.mkdtemp(prefix='verif-c09c-', dir=W.SCRATCH_BASE)
+        try:
+            db = os.path.join(tmpd, 'kmip.db')
+            shutil.copyfile(W.template_db(), db)
+            code = WORKLOAD_MAIN % {'verif': os.path.dirname(os.path.dirname(os.path.abspath(__file__))),
+                                    'dir': tmpd, 'db': db, 'name': name}
+            counts, out, rc = crash.count_syscalls(['/venv/bin/python', '-c', code], env)
+            if 'DONE' not in out:
+                rep.harness_error("un-faulted run of workload '%s' under strace did not finish: rc=%s" % (
+                    name, rc))
+        finally:
+            shutil.rmtree(tmpd, ignore_errors=True)
+        tot['counts'][name] = counts
+        tasks = []
+        for sc, cnt in sorted(counts.items()):
+            ns = list(range(1, cnt + 1))
+            tot['sys_points'] += len(ns)
+            k = max(1, min(16, len(ns) // 4 or 1))
+            for i in range(k):
+                if ns[i::k]:
+                    tasks.append((sc, ns[i::k], states, labels, env))
+        for part in pmap(_syscall_worker, tasks):
+            kinds.update(tuple(k) for k in part.pop('kinds', []))
+            _tag(part, name)
+            rep.merge(part)
+
+
+def _tag(part, name):
+    """Violation keys and replay documents carry the workload they belong to."""
+    part['violations'] = [("%s|wl=%s" % (k, name) if name != 'main' else k, what,
+                           dict(r, workload=name)) for k, what, r in part.get('violations', [])]
+
+
+def run(tier, seed):
+    rep = Reporter('C09', 'fault_enumeration', tier, seed)
+    kinds = set()
+    tot = {'distinct_states': 0, 'operations': 0, 'stmt_points': 0, 'sys_points': 0, 'counts': {}}
+    for name in WORKLOADS:
+        _one_workload(rep, tier, name, kinds, tot)
     total = rep.counters.get('crash_points', 0)
-    if stmt_points < 100 or distinct_states < 20:
+    stmt_points, sys_points, distinct_states = tot['stmt_points'], tot['sys_points'], tot['distinct_states']
+    counts = tot['counts']
+    labels = range(tot['operations'])
+    if stmt_points < 200 or distinct_states < 40:
         rep.harness_error("vacuous: %d statement-level points, %d distinct reference states" % (
             stmt_points, distinct_states))
     return rep.finish(dict(
         evaluations=total, distinct_nontrivial=len(kinds) + distinct_states,
         rule="a case is one crash point (survivor files) checked against the reference states; "
              "distinct_nontrivial = number of distinct (event kind, statement verb) / (syscall) "
-             "classes of crash points plus the number of distinct reference states of the workload",
+             "classes of crash points plus the number of distinct reference states of the workloads",
         points_total=stmt_points + sys_points, points_covered=total,
         statement_level_points=stmt_points, syscall_level_points=sys_points,
         syscall_counts=counts, workload_operations=len(labels),
@@ -381,7 +511,7 @@ def run(tier, seed):
 
 
 def replay(doc):
-    states, res = reference_states()
+    states, res = reference_states(doc.get('workload', 'main'))
     labels = [r[0] for r in res]
     if doc.get('level') == 'statement':
         tmp, pts = statement_level(None, states, labels)
